@@ -700,3 +700,251 @@ def ITER_POS(it):
 @loop_invariant(PARSER + "_parse_string_literal", loop=0)
 def _inv_parse_string(s):
     return {"position": ITER_POS(s.iterator) >= 0}
+
+
+# ------------------------------------------------------------------------------------------------ operator wrappers
+# The Specification's operator table (CONTRACTS.md, C04), over the operand classes
+#   B Boolean, R Rational, S String, Q<e> Set with element class e in {B, R, S}, T serializable type (everything else).
+# DOMAIN: sets of sets and sets of types are outside the table (not covered).
+def OBJ(ref):
+    """a member of a collection as an expression value"""
+    if smt():
+        from pyvc.values import Obj
+
+        if isinstance(ref, Obj):
+            return ref
+        return ObjOf(ANY).wrap(speclib.CTX, ref)
+    return ref
+
+
+def EXISTS_MEMBER(c, pred):
+    if smt():
+        x = z3.FreshConst(X.V.RefSort, "m")
+        return z3.Exists([x], z3.And(_members(c)(x), pred(OBJ(x))))
+    return any(pred(x) for x in _native_members(c))
+
+
+def FORALL_MEMBER(c, pred):
+    return COLL_ALL(c, lambda x: pred(OBJ(x)))
+
+
+def is_prim(x):
+    return OR(is_bool(x), is_rat(x), is_str(x))
+
+
+def et_prim(q):
+    return OR(ET_IS(q, BOOLEAN_X), ET_IS(q, RATIONAL_X), ET_IS(q, STRING_X))
+
+
+def DOMAIN(x):
+    return IMPLIES(is_set(x), lambda: et_prim(x))
+
+
+_POW_VALUE = lambda a, b: (ITE(IS_INT(b), RPOW(a, b), FPOW_VALUE(a, b)) if smt()
+                           else (RPOW(a, b) if IS_INT(b) else FPOW_VALUE(a, b)))
+_POW_INVALID = lambda a, b: OR(AND(IS_INT(b), a == 0, b < 0), AND(NOT(IS_INT(b)), lambda: FPOW_FAILS(a, b)))
+ARITH = {  # name -> (value on rationals, undefined operand combinations on rationals)
+    "add": (lambda a, b: a + b, None),
+    "subtract": (lambda a, b: a - b, None),
+    "multiply": (lambda a, b: a * b, None),
+    "divide": (lambda a, b: a / b, lambda a, b: b == 0),
+    "modulo": (lambda a, b: RMOD(a, b), lambda a, b: b == 0),
+    "power": (_POW_VALUE, _POW_INVALID),
+}
+
+
+def prim_defined(op, x, y):
+    """scalar (x op y) exists in the table: rationals; strings only for +"""
+    ok = AND(is_rat(x), is_rat(y))
+    if op == "add":
+        ok = OR(ok, AND(is_str(x), is_str(y)))
+    return ok
+
+
+def prim_invalid(op, x, y):
+    inv = ARITH[op][1]
+    if inv is None:
+        return False
+    return AND(is_rat(x), is_rat(y), lambda: inv(rv(x), rv(y)))
+
+
+def prim_value(op, x, y, res):
+    val = ARITH[op][0]
+    clauses = [IMPLIES(AND(is_rat(x), is_rat(y)), lambda: AND(is_rat(res), lambda: rv(res) == val(rv(x), rv(y))))]
+    if op == "add":
+        clauses.append(IMPLIES(AND(is_str(x), is_str(y)),
+                               lambda: AND(is_str(res), lambda: EQ(sv(res), CONCAT(sv(x), sv(y))))))
+    return AND(*clauses)
+
+
+def ew_defined(op, q, s):
+    """element-wise application of op between the members of q and the scalar s exists in the table"""
+    ok = AND(ET_IS(q, RATIONAL_X), is_rat(s))
+    if op == "add":
+        ok = OR(ok, AND(ET_IS(q, STRING_X), is_str(s)))
+    return ok
+
+
+def arith_undefined(op, l, r):
+    ql, qr = is_set(l), is_set(r)
+    return NOT(OR(AND(NOT(ql), NOT(qr), prim_defined(op, l, r)),
+                  AND(ql, NOT(qr), lambda: ew_defined(op, l, r)),
+                  AND(NOT(ql), qr, lambda: ew_defined(op, r, l))))
+
+
+def arith_invalid(op, l, r):
+    ql, qr = is_set(l), is_set(r)
+    return AND(NOT(arith_undefined(op, l, r)),
+               OR(AND(NOT(ql), NOT(qr), prim_invalid(op, l, r)),
+                  AND(ql, NOT(qr), lambda: EXISTS_MEMBER(l, lambda x: prim_invalid(op, x, r))),
+                  AND(NOT(ql), qr, lambda: EXISTS_MEMBER(r, lambda x: prim_invalid(op, l, x)))))
+
+
+def IMAGE(src, res, rel):
+    """res = { y | x in src, rel(x, y) }: every member of res is related to a member of src and vice versa"""
+    return AND(FORALL_MEMBER(res, lambda y: EXISTS_MEMBER(src, lambda x: rel(x, y))),
+               FORALL_MEMBER(src, lambda x: EXISTS_MEMBER(res, lambda y: rel(x, y))))
+
+
+def arith_value(op, l, r, res):
+    ql, qr = is_set(l), is_set(r)
+    return AND(IMPLIES(AND(NOT(ql), NOT(qr)), lambda: prim_value(op, l, r, res)),
+               # element-wise, operand order preserved: {q} op s = {q op s},  s op {q} = {s op q}
+               IMPLIES(AND(ql, NOT(qr)), lambda: AND(is_set(res), lambda: same_et(res, l),
+                                                     lambda: IMAGE(l, res, lambda x, y: prim_value(op, x, r, y)))),
+               IMPLIES(AND(NOT(ql), qr), lambda: AND(is_set(res), lambda: same_et(res, r),
+                                                     lambda: IMAGE(r, res, lambda x, y: prim_value(op, l, x, y)))))
+
+
+def _wrapper(name, undefined, invalid, value):
+    class _C:
+        params = dict(left=ObjOf(ANY), right=ObjOf(ANY))
+        returns = ObjOf(ANY)
+        raises = {"UndefinedOperatorError": lambda s: undefined(s.left, s.right)}
+
+        def pre(s):
+            return {"domain": AND(DOMAIN(s.left), DOMAIN(s.right))}
+
+        def post(s):
+            return {"value": value(s.left, s.right, s.result), "domain": DOMAIN(s.result)}
+
+    if invalid is not None:
+        _C.raises["InvalidOperandError"] = lambda s: invalid(s.left, s.right)
+    _C.__name__ = "_Op" + name
+    contract(OPMOD + name, props=P)(_C)
+
+
+for _op in ARITH:
+    _wrapper(_op, (lambda o: lambda l, r: arith_undefined(o, l, r))(_op), (lambda o: lambda l, r: arith_invalid(o, l, r))(_op),
+             (lambda o: lambda l, r, res: arith_value(o, l, r, res))(_op))
+
+# logical: booleans only
+_both_bool = lambda l, r: AND(is_bool(l), is_bool(r))
+_wrapper("logical_or", lambda l, r: NOT(_both_bool(l, r)), None,
+         lambda l, r, res: AND(is_bool(res), lambda: BOOL_EQ(bv(res), OR(bv(l), bv(r)))))
+_wrapper("logical_and", lambda l, r: NOT(_both_bool(l, r)), None,
+         lambda l, r, res: AND(is_bool(res), lambda: BOOL_EQ(bv(res), AND(bv(l), bv(r)))))
+
+
+# comparisons
+def _same_class_prims(l, r):
+    return OR(AND(is_bool(l), is_bool(r)), AND(is_rat(l), is_rat(r)), AND(is_str(l), is_str(r)))
+
+
+def _both_sets(l, r):
+    return AND(is_set(l), is_set(r))
+
+
+def equal_value(l, r):
+    """the truth value of l == r where it is defined"""
+    return OR(AND(is_bool(l), is_bool(r), lambda: BOOL_EQ(bv(l), bv(r))),
+              AND(is_rat(l), is_rat(r), lambda: rv(l) == rv(r)),
+              AND(is_str(l), is_str(r), lambda: EQ(NFC(sv(l)), NFC(sv(r)))),
+              AND(is_set(l), is_set(r), lambda: COLL_SAME(l, r)))
+
+
+_eq_undefined = lambda l, r: NOT(OR(_same_class_prims(l, r), _both_sets(l, r)))
+_sets_mismatch = lambda l, r: AND(_both_sets(l, r), lambda: NOT(same_et(l, r)))
+_wrapper("equal", _eq_undefined, _sets_mismatch,
+         lambda l, r, res: AND(is_bool(res), lambda: BOOL_EQ(bv(res), equal_value(l, r))))
+_wrapper("not_equal", _eq_undefined, _sets_mismatch,
+         lambda l, r, res: AND(is_bool(res), lambda: BOOL_EQ(bv(res), NOT(equal_value(l, r)))))
+
+
+def _order(name, on_rat, on_set):
+    _wrapper(name, lambda l, r: NOT(OR(AND(is_rat(l), is_rat(r)), _both_sets(l, r))), _sets_mismatch,
+             lambda l, r, res: AND(is_bool(res), lambda: BOOL_EQ(bv(res), OR(
+                 AND(is_rat(l), is_rat(r), lambda: on_rat(rv(l), rv(r))),
+                 AND(is_set(l), is_set(r), lambda: on_set(l, r))))))
+
+
+_order("less_or_equal", lambda a, b: a <= b, lambda a, b: COLL_SUBSET(a, b))
+_order("greater_or_equal", lambda a, b: a >= b, lambda a, b: COLL_SUBSET(b, a))
+_order("less", lambda a, b: a < b, lambda a, b: AND(COLL_SUBSET(a, b), NOT(COLL_SAME(a, b))))
+_order("greater", lambda a, b: a > b, lambda a, b: AND(COLL_SUBSET(b, a), NOT(COLL_SAME(a, b))))
+
+
+def _bitwise(name, which, how, empty_result):
+    _wrapper(name, lambda l, r: NOT(OR(AND(is_rat(l), is_rat(r)), _both_sets(l, r))),
+             lambda l, r: OR(AND(is_rat(l), is_rat(r), lambda: OR(NOT(IS_INT(rv(l))), NOT(IS_INT(rv(r))))),
+                             AND(_both_sets(l, r), lambda: OR(NOT(same_et(l, r)), empty_result(l, r)))),
+             lambda l, r, res: AND(
+                 IMPLIES(AND(is_rat(l), is_rat(r)), lambda: AND(is_rat(res), lambda: rv(res) == BITOP(which, rv(l), rv(r)))),
+                 IMPLIES(_both_sets(l, r), lambda: AND(is_set(res), lambda: same_et(res, l),
+                                                      lambda: COLL_IS(res, l, r, how)))))
+
+
+_bitwise("bitwise_or", "or", "union", lambda a, b: False)
+_bitwise("bitwise_xor", "xor", "symdiff", lambda a, b: COLL_SAME(a, b))
+_bitwise("bitwise_and", "and", "intersection", lambda a, b: COLL_DISJOINT(a, b))
+
+
+# unary
+def _unary(name, defined, value):
+    class _C:
+        params = dict(operand=ObjOf(ANY))
+        returns = ObjOf(ANY)
+        raises = {"UndefinedOperatorError": lambda s: NOT(defined(s.operand))}
+
+        def post(s):
+            return {"value": value(s.operand, s.result)}
+
+    _C.__name__ = "_Op" + name
+    contract(OPMOD + name, props=P)(_C)
+
+
+_unary("logical_not", is_bool, lambda x, res: AND(is_bool(res), lambda: BOOL_EQ(bv(res), NOT(bv(x)))))
+_unary("positive", is_rat, lambda x, res: AND(is_rat(res), lambda: rv(res) == rv(x)))
+_unary("negative", is_rat, lambda x, res: AND(is_rat(res), lambda: rv(res) == -rv(x)))
+
+
+# ------------------------------------------------------------------------------------------------ Set: element-wise
+def _set_elementwise(op, swapped):
+    pname = "left" if swapped else "right"
+    app_defined = lambda s: AND(NOT(is_set(getattr(s, pname))), lambda: ew_defined(op, s.self, getattr(s, pname)))
+    inv = (lambda x, o: prim_invalid(op, o, x)) if swapped else (lambda x, o: prim_invalid(op, x, o))
+    val = (lambda x, o, y: prim_value(op, o, x, y)) if swapped else (lambda x, o, y: prim_value(op, x, o, y))
+
+    class _C:
+        """{q} op s = {q op s} and s op {q} = {s op q}: defined iff every single application is."""
+        params = {pname: ObjOf(ANY)}
+        returns = SETR
+        raises = {"UndefinedOperatorError": lambda s: NOT(app_defined(s)),
+                  "InvalidOperandError": lambda s: AND(app_defined(s), lambda: EXISTS_MEMBER(
+                      s.self, lambda x: inv(x, getattr(s, pname))))}
+
+        def pre(s):
+            return {"domain": AND(DOMAIN(s.self), DOMAIN(getattr(s, pname)))}
+
+        def post(s):
+            o = getattr(s, pname)
+            return {"class": is_set(s.result), "element-type": same_et(s.result, s.self),
+                    "members": IMAGE(s.self, s.result, lambda x, y: val(x, o, y))}
+
+    _C.__name__ = "_Set_%s%s" % (op, "_right" if swapped else "")
+    contract(SET_X + "._%s%s" % (op, "_right" if swapped else ""), props=P)(_C)
+
+
+for _op in ARITH:
+    _set_elementwise(_op, False)
+    _set_elementwise(_op, True)
